@@ -444,4 +444,132 @@ theorem vi_tol0_warm (m : MDP) (rep : Rep) (hrep : RepOK m rep) (hA : 0 < m.A) (
   simp only [valueIteration, htol, hv, bne_self_eq_false, Bool.false_eq_true, if_false]
   exact hval s hs
 
+/-! ## `optH_is_optimal`: the DP values dominate every history-dependent plan and are attained by the greedy plan -/
+
+theorem sumTo_le {n : Nat} {f g : Nat → Rat} (h : ∀ i, i < n → f i ≤ g i) : sumTo n f ≤ sumTo n g := by
+  induction n with
+  | zero => simp [sumTo]
+  | succ n ih =>
+    simp only [sumTo]
+    have h1 := ih (fun i hi => h i (by omega))
+    have h2 := h n (by omega)
+    linarith
+
+theorem qBackup_le_bellman (m : MDP) (hA : 0 < m.A) (v : Nat → Rat) (s a : Nat) (ha : a < m.A) :
+    qBackup m v s a ≤ bellman m v s :=
+  maxTo_ge (m.A - 1) (qBackup m v s) a (by omega)
+
+/-- **optH_is_optimal (upper bound).** No h-step plan, however it depends on the history of states, earns more than `optH h`. -/
+theorem evalPlan_le_optH (m : MDP) (hγ : 0 ≤ m.γ) (hT : ∀ s a s1, 0 ≤ m.T s a s1) (hA : 0 < m.A) :
+    ∀ (h : Nat) (p : Plan h), Plan.Valid m.A h p → ∀ s, evalPlan m h p s ≤ optH m h s := by
+  intro h
+  induction h with
+  | zero => intro p _ s; simp [evalPlan, optH, optFrom]
+  | succ h ih =>
+    intro p hp s
+    change Nat × (Nat → Plan h) at p
+    obtain ⟨a, k⟩ := p
+    obtain ⟨ha, hk⟩ := hp
+    have h1 : evalPlan m (h+1) (a, k) s ≤ qBackup m (optH m h) s a := by
+      simp only [evalPlan, qBackup]
+      have : sumTo m.S (fun s1 => m.T s a s1 * (evalPlan m h (k s1) s1 * m.γ))
+          ≤ sumTo m.S (fun s1 => m.T s a s1 * (optH m h s1 * m.γ)) := by
+        apply sumTo_le
+        intro s1 _
+        apply mul_le_mul_of_nonneg_left _ (hT s a s1)
+        exact mul_le_mul_of_nonneg_right (ih (k s1) (hk s1) s1) hγ
+      linarith
+    exact le_trans h1 (qBackup_le_bellman m hA (optH m h) s a ha)
+
+theorem greedyPlan_valid (m : MDP) (hA : 0 < m.A) : ∀ (h : Nat) (s : Nat), Plan.Valid m.A h (greedyPlan m h s) := by
+  intro h
+  induction h with
+  | zero => intro s; trivial
+  | succ h ih =>
+    intro s
+    refine ⟨?_, fun s1 => ih s1⟩
+    have := argmaxTo_le (m.A - 1) (qBackup m (optH m h) s)
+    omega
+
+/-- **optH_is_optimal (attained).** The greedy plan is a legal plan and earns exactly `optH h`. -/
+theorem evalPlan_greedy (m : MDP) : ∀ (h : Nat) (s : Nat), evalPlan m h (greedyPlan m h s) s = optH m h s := by
+  intro h
+  induction h with
+  | zero => intro s; simp [evalPlan, optH, optFrom]
+  | succ h ih =>
+    intro s
+    simp only [greedyPlan, evalPlan]
+    have : sumTo m.S (fun s1 => m.T s (argmaxTo (m.A - 1) (qBackup m (optH m h) s)) s1 * (evalPlan m h (greedyPlan m h s1) s1 * m.γ))
+        = sumTo m.S (fun s1 => m.T s (argmaxTo (m.A - 1) (qBackup m (optH m h) s)) s1 * (optH m h s1 * m.γ)) := by
+      apply sumTo_congr
+      intro s1 _
+      rw [ih s1]
+    rw [this]
+    show qBackup m (optH m h) s _ = bellman m (optH m h) s
+    unfold bellman
+    rw [maxTo_eq_argmax]
+
+/-- **optH_is_optimal.** `optH h s` is the maximum expected discounted h-step return over all (deterministic,
+    state-history-dependent) plans from `s`. -/
+theorem optH_is_optimal (m : MDP) (hγ : 0 ≤ m.γ) (hT : ∀ s a s1, 0 ≤ m.T s a s1) (hA : 0 < m.A) (h s : Nat) :
+    (∀ p : Plan h, Plan.Valid m.A h p → evalPlan m h p s ≤ optH m h s) ∧
+    (∃ p : Plan h, Plan.Valid m.A h p ∧ evalPlan m h p s = optH m h s) :=
+  ⟨fun p hp => evalPlan_le_optH m hγ hT hA h p hp s, ⟨greedyPlan m h s, greedyPlan_valid m hA h s, evalPlan_greedy m h s⟩⟩
+
+/-! ## fixed points: uniqueness, distance from the Bellman residual, agreement of approximate solutions -/
+
+/-- `V` solves the Bellman optimality equation on the S states -/
+def IsFixedPoint (m : MDP) (V : Nat → Rat) : Prop := ∀ s, s < m.S → bellman m V s = V s
+
+theorem maxAbsDiff_ge (n : Nat) (a b : Nat → Rat) (s : Nat) (hs : s < n) : |a s - b s| ≤ maxAbsDiff n a b := by
+  unfold maxAbsDiff
+  have := maxTo_ge (n - 1) (fun s => absR (a s - b s)) s (by omega)
+  simpa [absR_eq] using this
+
+theorem maxAbsDiff_attained (n : Nat) (hn : 0 < n) (a b : Nat → Rat) : ∃ s, s < n ∧ maxAbsDiff n a b = |a s - b s| := by
+  unfold maxAbsDiff
+  obtain ⟨i, hi, h⟩ := maxTo_attained (n - 1) (fun s => absR (a s - b s))
+  exact ⟨i, by omega, by simpa [absR_eq] using h⟩
+
+/-- **Two approximate solutions are close.** If ‖BV − V‖∞ ≤ rV and ‖BW − W‖∞ ≤ rW then ‖V − W‖∞ ≤ (rV + rW)/(1 − γ). -/
+theorem approx_fixed_points_close (m : MDP) (hγ0 : 0 ≤ m.γ) (hγ1 : m.γ < 1) (hT : ValidT m)
+    (V W : Nat → Rat) (rV rW : Rat)
+    (hV : ∀ s, s < m.S → |bellman m V s - V s| ≤ rV) (hW : ∀ s, s < m.S → |bellman m W s - W s| ≤ rW) :
+    ∀ s, s < m.S → |V s - W s| ≤ (rV + rW) / (1 - m.γ) := by
+  intro s hs
+  have hS : 0 < m.S := by omega
+  obtain ⟨t, ht, hD⟩ := maxAbsDiff_attained m.S hS V W
+  have hle : ∀ u, u < m.S → |V u - W u| ≤ maxAbsDiff m.S V W := fun u hu => maxAbsDiff_ge m.S V W u hu
+  have hc := bellman_contraction m V W (maxAbsDiff m.S V W) hγ0 hT hle t
+  have h1 := hV t ht
+  have h2 := hW t ht
+  have hpos : 0 < 1 - m.γ := by linarith
+  have key : maxAbsDiff m.S V W ≤ rV + rW + m.γ * maxAbsDiff m.S V W := by
+    have e : V t - W t = -(bellman m V t - V t) + (bellman m V t - bellman m W t) + (bellman m W t - W t) := by ring
+    have t1 := abs_add_le (-(bellman m V t - V t) + (bellman m V t - bellman m W t)) (bellman m W t - W t)
+    have t2 := abs_add_le (-(bellman m V t - V t)) (bellman m V t - bellman m W t)
+    rw [abs_neg] at t2
+    have t3 : |V t - W t| ≤ rV + rW + m.γ * maxAbsDiff m.S V W := by rw [e]; linarith
+    linarith
+  have hfin : maxAbsDiff m.S V W ≤ (rV + rW) / (1 - m.γ) := by
+    rw [le_div_iff₀ hpos]
+    nlinarith
+  exact le_trans (hle s hs) hfin
+
+/-- **fixedPoint_unique.** The Bellman optimality equation has at most one solution (γ < 1). -/
+theorem fixedPoint_unique (m : MDP) (hγ0 : 0 ≤ m.γ) (hγ1 : m.γ < 1) (hT : ValidT m) (V W : Nat → Rat)
+    (hV : IsFixedPoint m V) (hW : IsFixedPoint m W) : ∀ s, s < m.S → V s = W s := by
+  intro s hs
+  have := approx_fixed_points_close m hγ0 hγ1 hT V W 0 0
+    (fun s hs => by rw [hV s hs]; simp) (fun s hs => by rw [hW s hs]; simp) s hs
+  simp at this
+  linarith [sub_eq_zero.mp this]
+
+/-- **Residual bound.** ‖BV − V‖∞ ≤ r implies ‖V − V*‖∞ ≤ r/(1−γ) for every solution V* of the optimality equation. -/
+theorem residual_to_fixed_point (m : MDP) (hγ0 : 0 ≤ m.γ) (hγ1 : m.γ < 1) (hT : ValidT m) (V W : Nat → Rat) (r : Rat)
+    (hV : ∀ s, s < m.S → |bellman m V s - V s| ≤ r) (hW : IsFixedPoint m W) :
+    ∀ s, s < m.S → |V s - W s| ≤ r / (1 - m.γ) := by
+  have := approx_fixed_points_close m hγ0 hγ1 hT V W r 0 hV (fun s hs => by rw [hW s hs]; simp)
+  simpa using this
+
 end AITB.MDP
